@@ -441,11 +441,13 @@ type merged struct {
 	infra      []string
 	fp         map[string]string
 	doubleRuns int
+	pathVaries int
+	fpr        map[string]string
 	tags       map[string]bool
 }
 
 func newMerged() *merged {
-	return &merged{faults: map[string]int64{}, probes: map[string]int64{}, nt: map[string]bool{}, viol: map[string]*engine.ViolationReport{}, fp: map[string]string{}, tags: map[string]bool{}}
+	return &merged{faults: map[string]int64{}, probes: map[string]int64{}, nt: map[string]bool{}, viol: map[string]*engine.ViolationReport{}, fp: map[string]string{}, fpr: map[string]string{}, tags: map[string]bool{}}
 }
 
 func (m *merged) add(res *engine.WorkerResult) {
@@ -491,6 +493,10 @@ func (m *merged) add(res *engine.WorkerResult) {
 		m.fp[k] = v
 	}
 	m.doubleRuns += res.DoubleRuns
+	m.pathVaries += res.PathVaries
+	for k, v := range res.FPRByRun {
+		m.fpr[k] = v
+	}
 	for _, t := range res.Tags {
 		m.tags[t] = true
 	}
@@ -599,7 +605,9 @@ func check(id, tier, repo string, writeEvidence bool) int {
 		for k, v := range det.FPByRun {
 			if mv, ok := m.fp[k]; ok {
 				detChecked++
-				if mv != v {
+				if mv != v && m.fpr[k] != "" && m.fpr[k] == det.FPRByRun[k] {
+					m.pathVaries++
+				} else if mv != v {
 					m.infra = append(m.infra, fmt.Sprintf("nondeterminism across processes: run %s fingerprint %s vs %s", k, mv, v))
 				}
 			}
@@ -637,6 +645,12 @@ func check(id, tier, repo string, writeEvidence bool) int {
 		m.probes["race_build_runs"] += int64(raceM.runs)
 	}
 
+	if raceM != nil {
+		m.pathVaries += raceM.pathVaries
+	}
+	if m.pathVaries > 0 {
+		fmt.Fprintf(os.Stderr, "simcheck: note: %d executions took another path through the code under test when repeated although every result agreed: the tree's execution path is not a function of the script (it ranges over a Go map, for instance); interleavings of such runs replay by result, not step by step\n", m.pathVaries)
+	}
 	known := loadKnown()
 	var classes []string
 	for c := range m.viol {
@@ -829,7 +843,10 @@ func (r *runner) settleInProcessMismatches(bin string, infra []string, timeout t
 		ta, tb := fmt.Sprintf("settle-a-%d", n), fmt.Sprintf("settle-b-%d", n)
 		a := r.fanoutOne(bin, n, n+1, ta, append([]string{"SIM_RECORD_FP_BELOW=2000000000"}, r.envFor(bin, ta)...), timeout)
 		b := r.fanoutOne(bin, n, n+1, tb, append([]string{"SIM_RECORD_FP_BELOW=2000000000"}, r.envFor(bin, tb)...), timeout)
-		if a == nil || b == nil || a.FPByRun[key] == "" || a.FPByRun[key] != b.FPByRun[key] {
+		if a == nil || b == nil || a.FPByRun[key] == "" {
+			return infra
+		}
+		if a.FPByRun[key] != b.FPByRun[key] && (a.FPRByRun[key] == "" || a.FPRByRun[key] != b.FPRByRun[key]) {
 			return infra
 		}
 	}
@@ -1106,9 +1123,10 @@ func (r *runner) writeEvidence(m *merged, total int, wall float64, newViol, know
 		"panics_observed":         m.panics,
 		"known_findings_hit":      knownN,
 		"determinism": map[string]any{
-			"in_process_double_executions":        m.doubleRuns,
-			"cross_process_fingerprints_compared": detChecked,
-			"note":                                "every mismatch is reported as infrastructure trouble (exit 2), never as a violation",
+			"in_process_double_executions":                      m.doubleRuns,
+			"executions_whose_path_varied_while_results_agreed": m.pathVaries,
+			"cross_process_fingerprints_compared":               detChecked,
+			"note":                                              "every mismatch is reported as infrastructure trouble (exit 2), never as a violation",
 		},
 		"distinct_situations_reached": tagCounts(m.tags),
 		"components":                  r.cfg.Components,
